@@ -303,7 +303,7 @@ theorem notification_fresh_piv (cfg : Cfg) (e : Endp) (t : Nat) (sendPiv : Bool)
     · right; simp [h1, h2]
 
 /-- So is every response (with or without Observe option) to an Observe request: its association is kept, the nonce of
-the request could otherwise be used twice (fix ae365ed). -/
+the request could otherwise be used twice (fix 155f0b4). -/
 theorem observe_response_fresh_piv (cfg : Cfg) (e : Endp) (t : Nat) (a : Assoc) (obsOpt sendPiv : Bool)
     (ha : e.assocs t = some a) (ho : a.observe = true) (h : e.snd.seq < 2 ^ 64 - 1) :
     (nstep cfg e (.sendRsp t obsOpt sendPiv)).2 = .err ∨
@@ -318,7 +318,7 @@ theorem observe_response_fresh_piv (cfg : Cfg) (e : Endp) (t : Nat) (a : Assoc) 
   · right; simp [h1, h2]
 
 /-- A request that fails authentication changes no association: the nonce a response is protected with is never one
-an attacker chose (fix 9631fdc). -/
+an attacker chose (fix b3c6528). -/
 theorem forged_request_no_association (cfg : Cfg) (e : Endp) (t : Nat) (ev : Ev) (obs : Bool) (h : ev.authentic = false) :
     (nstep cfg e (.reqIn t ev obs)).1.assocs = e.assocs := by
   have hd : decrypted cfg e.rcp ev = false := by
